@@ -39,8 +39,11 @@ type AdapterCfg struct {
 	// orchestrator (whose filter screens non-members before the adapter sees them): the adapter itself must bind a
 	// message to its transport sender. Outsiders are node identifiers that are not parties of the session; they
 	// re-send copies of the parties' protocol messages under their own (authenticated) identity.
-	Direct    bool     `json:"direct,omitempty"`
-	Outsiders []uint16 `json:"outsiders,omitempty"`
+	// TwoSessions: after the key generation two signing sessions run at the same time, on two topics and two
+	// digests, among signer subsets that differ where the threshold leaves a choice
+	TwoSessions bool     `json:"twoSessions,omitempty"`
+	Direct      bool     `json:"direct,omitempty"`
+	Outsiders   []uint16 `json:"outsiders,omitempty"`
 }
 
 func genAdapter(seed uint64, tier string, pECDSA float64) AdapterCfg {
@@ -94,9 +97,11 @@ func genAdapter(seed uint64, tier string, pECDSA float64) AdapterCfg {
 		}
 		c.Deploy.IDs = sp
 	}
+	c.TwoSessions = backend == "eddsa" && t+1 < n && c.Steal == 0 && prng.Derive(seed, "two-sessions").Bool(0.5)
 	// a quarter of the runs (half of the ECDSA ones): adapter-to-adapter key generation with non-member senders
 	if rd := prng.Derive(seed, "direct"); rd.Bool(0.25) || (backend == "ecdsa" && rd.Bool(0.34)) {
 		c.Direct = true
+		c.TwoSessions = false
 		c.Steal = 0
 		// spread the parties out so that there is room for outsiders below, between and above them
 		next := uint16(0)
@@ -421,6 +426,45 @@ func runAdapter(t *testing.T, spec RunSpec, cfg AdapterCfg, res *RunResult) *ada
 				}
 			}
 		}
+		if ok && cfg.TwoSessions {
+			// two sessions at once: every signer of either must obtain a signature that verifies for ITS digest
+			rs := prng.Derive(spec.Seed, "signers")
+			topics := []string{cfg.Topic + "/A", cfg.Topic + "/B"}
+			digests := [][]byte{cfg.Digest, sha(append([]byte("second"), cfg.Digest...))}
+			st2 := &starter{}
+			type sc struct {
+				sess int
+				p    *pendingStart
+			}
+			var scs []sc
+			for si := range topics {
+				for _, id := range signersFor(d, rs, topics[si]) {
+					scs = append(scs, sc{si, st2.add(fmt.Sprintf("start:sg%d:%d", si, id), id, 3, startSign(d, id, digests[si], topics[si], timeout))})
+				}
+			}
+			if phase("two concurrent signing sessions", st2) {
+				for _, x := range scs {
+					c := x.p.Call
+					if c.Err != nil {
+						v("sign-failed", "two concurrent signing sessions among authorised sets: "+callSummary(st2.calls()))
+						break
+					}
+					if !verifyAdapterSig(cfg.Deploy.Backend, out.pk, digests[x.sess], c.Out) {
+						v("signature-invalid", fmt.Sprintf("session %d of two concurrent signing sessions: the signature returned to node %d does not verify for the digest of that session", x.sess, c.Node))
+						break
+					}
+					if verifyAdapterSig(cfg.Deploy.Backend, out.pk, digests[1-x.sess], c.Out) {
+						v("signature-for-other-digest", fmt.Sprintf("session %d of two concurrent signing sessions: the signature returned to node %d verifies for the OTHER session's digest", x.sess, c.Node))
+						break
+					}
+					if x.sess == 0 {
+						out.sigs[c.Node] = c.Out
+					}
+				}
+				out.completed = len(out.violations) == 0
+			}
+			ok = false // (the single-session phase below is this run's alternative)
+		}
 		if ok {
 			signers := signersFor(d, prng.Derive(spec.Seed, "signers"), cfg.Topic)
 			st2 := &starter{}
@@ -571,7 +615,7 @@ func runC19(t *testing.T, spec RunSpec) *RunResult {
 	if cfg.Deploy.Silent {
 		mode = "silent"
 	}
-	res.ConfigKey = fmt.Sprintf("%s n=%d t=%d %s digestlen=%d lead0=%v steal=%v sparse-ids=%v", cfg.Deploy.Backend, cfg.N, cfg.T, mode, len(cfg.Digest), len(cfg.Digest) > 0 && cfg.Digest[0] == 0, cfg.Steal != 0, int(cfg.Deploy.IDs[len(cfg.Deploy.IDs)-1]) != len(cfg.Deploy.IDs))
+	res.ConfigKey = fmt.Sprintf("%s n=%d t=%d %s digestlen=%d lead0=%v steal=%v sparse-ids=%v two-sessions=%v", cfg.Deploy.Backend, cfg.N, cfg.T, mode, len(cfg.Digest), len(cfg.Digest) > 0 && cfg.Digest[0] == 0, cfg.Steal != 0, int(cfg.Deploy.IDs[len(cfg.Deploy.IDs)-1]) != len(cfg.Deploy.IDs), cfg.TwoSessions)
 	out := runAdapter(t, spec, cfg, res)
 	for _, v := range out.violations {
 		v.Invariant = "C19/" + v.Invariant
